@@ -273,7 +273,15 @@ func (w *world) answerOK(k key, val string, when string) {
 	}
 	want, ok := w.model[k]
 	if !ok {
-		if cands, mb := w.maybe[k]; mb {
+		if cands, mb := w.maybe[k]; mb && k.fam == fAgg {
+			// aggregate keys contain the data root: whatever was stored under the key carries exactly this
+			// attestation data (the single candidate); the aggregate around it may be any one offered
+			for c := range cands {
+				w.model[k] = c
+			}
+			delete(w.maybe, k)
+			want, ok = w.model[k], true
+		} else if mb {
 			if !cands[val] {
 				w.rt.Fatalf("%s: answer for %v is %s, which no store (failed or not) ever carried for that key", when, k, val)
 			}
@@ -281,7 +289,9 @@ func (w *world) answerOK(k key, val string, when string) {
 			delete(w.maybe, k)
 			return
 		}
-		w.rt.Fatalf("%s: answer for %v although the model holds nothing for it", when, k)
+		if !ok {
+			w.rt.Fatalf("%s: answer for %v although the model holds nothing for it", when, k)
+		}
 	}
 	if k.fam == fAgg {
 		// identical attestation data; the aggregate itself may be the latest one offered
@@ -557,7 +567,7 @@ func runCase(rt *rapid.T) {
 					if _, ok := w.model[tch.k]; ok {
 						continue
 					}
-					if (tch.k.fam == fCon || tch.k.fam == fPro) && (w.pendingOn(tch.k) || w.maybe[tch.k] != nil) {
+					if (tch.k.fam == fCon || tch.k.fam == fPro || tch.k.fam == fAgg) && (w.pendingOn(tch.k) || w.maybe[tch.k] != nil) {
 						if w.maybe[tch.k] == nil {
 							w.maybe[tch.k] = map[string]bool{}
 						}
